@@ -82,10 +82,10 @@ type natResp struct {
 		T0Ns int64 `json:"t0_ns"`
 		T1Ns int64 `json:"t1_ns"`
 	} `json:"ops"`
-	Removed  int  `json:"removed"`
-	Closed   bool `json:"closed"`
-	MapEmpty bool `json:"map_empty"`
-	Replies  int  `json:"replies_relayed"`
+	Removed   int  `json:"removed"`
+	Closed    bool `json:"closed"`
+	MapEmpty  bool `json:"map_empty"`
+	Replies   int  `json:"replies_relayed"`
 	Returned  bool `json:"copy_returned"`
 	GoneEarly bool `json:"gone_early"`
 }
